@@ -313,6 +313,8 @@ Print Assumptions src_order_instance.
 Print Assumptions dst_order_instance.
 Print Assumptions dst_eof_cancel_while_waiting_for_data.
 Print Assumptions src_eof_sent_after_ignored_fault.
+(* F35 repair: File-Segment-Recv, cancel callback (File Size Error), Transaction-Finished with that condition, one call *)
+Print Assumptions dst_cancel_condition_stands.
 Print Assumptions dst_finished_again_by_cancel.
 Print Assumptions dst_finished_again_by_ack_limit.
 Print Assumptions src_fault_after_finished.
